@@ -83,6 +83,15 @@ class _Run:
             self.reader = subprocess.Popen(["head", "-n", str(int(spec["keep_lines"]))], stdin=self.p.stdout, stdout=self.fout,
                                            stderr=subprocess.DEVNULL)
             self.p.stdout.close()             # only `head` holds the read end now
+        elif mode == "pipe":
+            # stdout is a pipe (as in `mchap ... | bgzip`): writes longer than PIPE_BUF are not atomic and a writer blocks in the
+            # middle of a long line while the 64 kB buffer is full
+            self.fout = tempfile.TemporaryFile("w+", prefix="c08-out-")
+            self.p = subprocess.Popen(cmd, env=env, stdout=subprocess.PIPE, stderr=self.ferr, start_new_session=True)
+            # a consumer that starts reading late: by then every process that writes to the pipe is blocked in the middle of a line
+            self.reader = subprocess.Popen(["sh", "-c", "sleep 4; exec cat"], stdin=self.p.stdout, stdout=self.fout,
+                                           stderr=subprocess.DEVNULL)
+            self.p.stdout.close()
         else:
             self.fout = tempfile.TemporaryFile("w+", prefix="c08-out-")
             self.p = subprocess.Popen(cmd, env=env, stdout=self.fout, stderr=self.ferr, start_new_session=True)
